@@ -38,6 +38,26 @@ pub fn judge(tree: &E) -> Verdict {
 }
 
 pub fn judge_with_threads(tree: &E, threads: Option<u32>) -> Verdict {
+    // a quarter of the trees also go through their command-line text: an expression that is valid
+    // must get its mode and table through parse as well (what the text means is C01/C05's business,
+    // that it is answered and routed alike is this one's)
+    if stable_hash(tree) % 4 == 0 {
+        if let Some(text) = crate::render::canonical(tree) {
+            match catch(|| lipe_find_parser::parse(&text)) {
+                Err(p) => return Verdict::Fail(format!("parse panicked on {text:?}: {p}")),
+                Ok(Err(e)) => return Verdict::Fail(format!("{text:?} is the command line of {tree:?}, but it was rejected ({e}): no output mode and no destination table for a valid expression")),
+                Ok(Ok((o, x))) => {
+                    if from_ast(&x) == *tree {
+                        let a = catch(|| lipe_find_parser::compile(&x, &o).map(|c| c.io_map().map(|m| m.len())).map_err(|e| e.to_string()));
+                        let b = catch(|| lipe_find_parser::compile(&to_ast(tree), &o).map(|c| c.io_map().map(|m| m.len())).map_err(|e| e.to_string()));
+                        if a != b {
+                            return Verdict::Fail(format!("{text:?}: the parsed tree and the equal hand-built tree get different output modes / tables: {a:?} vs {b:?}"));
+                        }
+                    }
+                }
+            }
+        }
+    }
     let comp = match policy::compile_tree(tree, threads, "/") {
         CompileOutcome::Ok(c) => c,
         CompileOutcome::Err(_) => return Verdict::Skip("does not compile (C12)"),
@@ -274,7 +294,7 @@ pub fn run(ctx: &Ctx) -> Report {
     total.merge(rnd);
     Report {
         stats: total,
-        rule: "random operator trees over up to ~6 output actions drawn from {-print, -print0, -printf F\\n, -printf F, -fprint f, -fprint0 f, -fprintf f F, -print-file-fid, -quit} with f in {a,b,c} (so sharing and non-sharing both occur) and a few tests, executed on three files, compiled without and with a -threads option; plus chains with up to 300 distinct destinations, and pairs of destinations that a truncated fingerprint, a path normaliser or a shell would identify (hash twins, a vs ./a vs a/, ~/x vs $HOME/x, a vs A). Oracle: framed mode iff some action writes to a file, NUL-terminates or prints a format whose last element is not the newline escape (computed on the specification side); plain mode has no destination table; in framed mode the table is a bijection between tags and the distinct requested (destination, terminator) pairs, the stdout stream of every file parses completely into frames, every tag is a key of the table, and aligning the frames with the outputs find's rules produce, table[tag] is the producing action's (destination, terminator). Non-trivial: >=3 requested pairs or a destination shared by different terminators, with at least one output produced. Distinct: by tree.".into(),
+        rule: "random operator trees over up to ~6 output actions drawn from {-print, -print0, -printf F\\n, -printf F, -fprint f, -fprint0 f, -fprintf f F, -print-file-fid, -quit} with f in {a,b,c} (so sharing and non-sharing both occur) and a few tests, executed on three files, compiled without and with a -threads option; plus chains with up to 300 distinct destinations, and pairs of destinations that a truncated fingerprint, a path normaliser or a shell would identify (hash twins, a vs ./a vs a/, ~/x vs $HOME/x, a vs A). A quarter of the trees also go through their canonical command line: it must be accepted, and when it parses to the same tree the output mode and the size of the table must equal those of the hand-built tree. Oracle: framed mode iff some action writes to a file, NUL-terminates or prints a format whose last element is not the newline escape (computed on the specification side); plain mode has no destination table; in framed mode the table is a bijection between tags and the distinct requested (destination, terminator) pairs, the stdout stream of every file parses completely into frames, every tag is a key of the table, and aligning the frames with the outputs find's rules produce, table[tag] is the producing action's (destination, terminator). Non-trivial: >=3 requested pairs or a destination shared by different terminators, with at least one output produced. Distinct: by tree.".into(),
         assumptions: crate::checks::c02::runtime_assumptions(),
         exhaustive: false,
     }
